@@ -76,7 +76,8 @@ where
         CL03Message::new(match a.as_i64().unwrap() {
             0 => Integer::from(0),
             1 => a1.clone(),
-            _ => a2.clone(),
+            2 => a2.clone(),
+            _ => Integer::from(Integer::from(1) << C::lm) - 1,       // the largest attribute value
         })
     };
     let vecm = |v: &Value| -> Vec<CL03Message> { v.as_array().unwrap().iter().map(|a| val(a)).collect() };
@@ -207,8 +208,9 @@ where
                 let u = idx(&a["U"]);
                 let nn = a["n"].as_u64().unwrap() as usize;
                 let rv = vecm(&a["rv"]);
-                let bases_n = Bases(ks.bases.0[..nn].to_vec());
-                let cpk = CL03CommitmentPublicKey { N: ks.cpk_issuer.N.clone(), h: ks.cpk_issuer.h.clone(), g_bases: ks.cpk_issuer.g_bases[..nn].to_vec() };
+                let nb = a["nb"].as_u64().unwrap() as usize;
+                let bases_n = Bases(ks.bases.0[..nb].to_vec());
+                let cpk = CL03CommitmentPublicKey { N: ks.cpk_issuer.N.clone(), h: ks.cpk_issuer.h.clone(), g_bases: ks.cpk_issuer.g_bases[..nb].to_vec() };
                 let got = match p {
                     Some(p) => guard(|| p.proof_verify(&cpk, &ks.pk, &bases_n, &rv, &u, nn)),
                     None => Ok(false),
